@@ -3,3 +3,5 @@
 package checks
 
 func setLockHook(f func(site string)) bool { return false }
+
+func haveVsync() bool { return false }
